@@ -65,7 +65,7 @@ def run(tier, seed):
                 "a newline / with the last instruction touching the last byte / with CRLF / inside a comment; both file entry "
                 "points (plain and counting) against the string entry points on the same contents (return value, offset, bytes, "
                 "count), on fresh instances and on instances with chunk fitting / STRICT options / a start offset set and a "
-                "mixed-length program; file mappings are placed flush against a PROT_NONE page (wrap seam) so that reading past the mapping "
+                "mixed-length program, and as two successive file calls on one instance (11 x 11 sizes, both endings, all four entry-point pairs); file mappings are placed flush against a PROT_NONE page (wrap seam) so that reading past the mapping "
                 "faults deterministically; missing path, directory; asm_create_bin_file at offsets {0,1,17,6000,6001,12500} and "
                 "into a missing directory. distinct_nontrivial = distinct (size, ending, entry point) cases")
     try:
@@ -161,6 +161,53 @@ def run(tier, seed):
                          (sz, sname, kind, str(sf)[:70], str(ss)[:70]))
         rep.states += len(meta)
         rep.bounds["instance_settings"] = [n for n, _ in SETTINGS]
+        # successive file calls on ONE instance (longer then shorter, shorter then longer, empty in between): anything the
+        # entry point keeps from one call to the next (a buffer, a length) shows here and nowhere else
+        files = {(sz, ending): (text, path) for sz, ending, text, path in jobs}
+        S2 = [x for x in (0, 1, 5, 6, 13, 40, 64, PAGE - 1, PAGE, PAGE + 1, 2 * PAGE) if (x, "nl") in files or (x, "none") in files]
+        hs = []
+        meta = []
+        for s1 in S2:
+            for s2 in S2:
+                for e1 in ("nl", "none"):
+                    for e2 in ("nl", "none"):
+                        if (s1, e1) not in files or (s2, e2) not in files:
+                            continue
+                        (t1, p1), (t2, p2) = files[(s1, e1)], files[(s2, e2)]
+                        for k1 in "fn":
+                            for k2 in "fn":
+                                fo = [("f%s" % hexec.esc(pp)) if k == "f" else ("n16:%s" % hexec.esc(pp)) for k, pp in ((k1, p1), (k2, p2))]
+                                so = [("A%s" % hexec.esc(tt)) if k == "f" else ("N16:%s" % hexec.esc(tt)) for k, tt in ((k1, t1), (k2, t2))]
+                                hs.append("ZG\tc65536:p:cc\t" + "\t".join(fo))
+                                hs.append("ZG\tc65536:p:cc\t" + "\t".join(so))
+                                meta.append((s1, e1, s2, e2, k1 + k2))
+        res = hexec.run(hs, variant="wrap", dangerous=True, timeout=20)
+        for i, m in enumerate(meta):
+            of, os_ = res[2 * i], res[2 * i + 1]
+            rep.evaluations += 2
+            rep.traces += 1
+            rep.transitions += 4
+
+            def summ3(o):
+                if hexec.is_crash(o):
+                    return ("crash", o[-1])
+                out = []
+                for x in o:
+                    if x[:2] in ("f:", "n:", "A:", "N:"):
+                        a = hexec.Asm(x)
+                        out.append((a.ret, a.off, a.hex, a.dest))
+                return tuple(out)
+            sf, ss = summ3(of), summ3(os_)
+            rep.distinct_n += 1
+            if sf != ss:
+                rep.fail({"class": "successive", "first": str(m[0]), "second": str(m[2]), "entries": m[4],
+                          "order": "shrinking" if m[2] < m[0] else ("growing" if m[2] > m[0] else "same")},
+                         ["crash" if sf and sf[0] == "crash" else "differs-from-string-call"],
+                         {"kind": "successive", "case": list(m)},
+                         "files of %d (%s) then %d (%s) bytes through %s on one instance: file %s, string %s" %
+                         (m[0], m[1], m[2], m[3], m[4], str(sf)[:90], str(ss)[:90]))
+        rep.states += len(meta)
+        rep.bounds["successive_file_calls"] = len(meta)
         # bad paths
         bad = [("missing", os.path.join(tmp, "nonexistent.asm")), ("directory", tmp), ("missing-dir", os.path.join(tmp, "no/such/f.asm"))]
         hs = []
@@ -291,6 +338,25 @@ def replay(r, verbose=False):
                 return True
             a, b = [hexec.Asm(next(x for x in o if x[:2] in ("f:", "n:", "A:", "N:"))) for o in res]
             return (a.ret, a.off, a.hex, a.dest) != (b.ret, b.off, b.hex, b.dest)
+        if r["kind"] == "successive":
+            s1, e1, s2, e2, ks = r["case"]
+            t1, t2 = content(s1, e1), content(s2, e2)
+            p1, p2 = os.path.join(tmp, "a.asm"), os.path.join(tmp, "b.asm")
+            for pp, tt in ((p1, t1), (p2, t2)):
+                with open(pp, "w", newline="") as f:
+                    f.write(tt)
+            fo = [("f%s" % hexec.esc(pp)) if k == "f" else ("n16:%s" % hexec.esc(pp)) for k, pp in zip(ks, (p1, p2))]
+            so = [("A%s" % hexec.esc(tt)) if k == "f" else ("N16:%s" % hexec.esc(tt)) for k, tt in zip(ks, (t1, t2))]
+            res = hexec.run(["ZG\tc65536:p:cc\t" + "\t".join(fo), "ZG\tc65536:p:cc\t" + "\t".join(so)], variant="wrap",
+                            dangerous=True, nproc=1, timeout=20)
+            if verbose:
+                print([x[:80] for x in res[0]], "\n", [x[:80] for x in res[1]])
+            if hexec.is_crash(res[0]):
+                return True
+
+            def summ(o):
+                return [(a.ret, a.off, a.hex, a.dest) for a in (hexec.Asm(x) for x in o if x[:2] in ("f:", "n:", "A:", "N:"))]
+            return summ(res[0]) != summ(res[1])
         if r["kind"] != "size":
             return True
         text = content(r["size"], r["ending"])
